@@ -209,8 +209,43 @@ pub fn scenario(seed: u64, _p: &Params, rep: &mut Report) {
     let mut full_evictions = 0u64;
     let mut discards = 0u64;
 
+    // a short scripted run of operations, started now and then between the random ones: a whole
+    // bucket reports disconnected, a connected candidate arrives for it, the candidate's own status
+    // changes while it waits, the timeout passes, and a member of the bucket reports again
+    let mut script: std::collections::VecDeque<Op> = std::collections::VecDeque::new();
     for step in 0..nops {
-        let op = if step < 50 {
+        if script.is_empty() && step >= 50 && rng.chance(1, 25) {
+            let (d, ids) = &pool.buckets[rng.usize(pool.buckets.len())];
+            let b = &prev[(*d - 1) as usize];
+            if b.nodes.len() == 16 {
+                if rng.chance(2, 3) {
+                    for n in &b.nodes {
+                        script.push_back(Op::UpdateStatus { id: n.id, connected: false, incoming: None });
+                    }
+                }
+                let outside: Vec<Id> = ids.iter().copied().filter(|i| !b.nodes.iter().any(|n| n.id == *i)).collect();
+                if !outside.is_empty() {
+                    let cand = *rng.pick(&outside);
+                    script.push_back(Op::Insert { id: cand, ver: 0, connected: true, incoming: rng.bool() });
+                    if rng.bool() {
+                        script.push_back(Op::UpdateStatus { id: cand, connected: rng.chance(1, 4), incoming: None });
+                    }
+                    if rng.chance(1, 4) {
+                        script.push_back(Op::Remove { id: b.nodes[rng.usize(16)].id });
+                    }
+                    script.push_back(Op::Sleep { ms: 4 });
+                    script.push_back(Op::Entry { id: cand });
+                    for _ in 0..2 {
+                        let member = b.nodes[1 + rng.usize(15)].id;
+                        script.push_back(Op::UpdateStatus { id: member, connected: rng.chance(1, 4), incoming: None });
+                    }
+                    rep.count("scripted_pending_runs");
+                }
+            }
+        }
+        let op = if let Some(op) = script.pop_front() {
+            op
+        } else if step < 50 {
             // fill phase: mostly insertions so that buckets become full early
             Op::Insert {
                 id: pool.any_id(&mut rng),
